@@ -260,6 +260,12 @@ def label_kv(label):
 
 
 def judge_c06(ctx, idx, op, impl, mi, ms, reason):
+    if op[0] == "sdecnt":
+        # the same on a runtime without a time driver: judged exactly as `sdec`
+        ctx.count("sdecnt")
+        op = ["sdec"] + op[1:]
+        if impl == "panic":
+            return [Finding("property", idx, "on a runtime without a time driver the stream reader panicked", expected=mi, observed=impl, name="C06_read_frame")]
     f = same(ctx, idx, op, impl, mi, "Stream.readExact/Codec.decode/writeAll <-> Codec::decode/encode on scripted streams")
     st = ctx.case_state
     if op[0] == "sdec":
@@ -309,6 +315,11 @@ def judge_c06(ctx, idx, op, impl, mi, ms, reason):
 
 
 def judge_c07(ctx, idx, op, impl, mi, ms, reason):
+    if op[0] == "sdecnt":
+        ctx.count("sdecnt")
+        op = ["sdec"] + op[1:]
+        if impl == "panic":
+            return [Finding("property", idx, "on a runtime without a time driver the stream reader panicked", expected=mi, observed=impl, name="C07_hostile")]
     f = same(ctx, idx, op, impl, mi, "Stream.Codec.decode <-> Codec::decode on a byte-counting scripted stream")
     if op[0] == "sdecmany":
         ctx.count("sdecmany")
@@ -1021,11 +1032,16 @@ def shipped_defs(wd):
     tg = os.path.join(core.REPO, "dict", "3gpp-ro-rf.xml")
     a = subprocess.run(["python3", scan, bx, "load", "builtin"], stdout=subprocess.PIPE, check=True, text=True).stdout
     b = subprocess.run(["python3", scan, tg, "load", "file", tg], stdout=subprocess.PIPE, check=True, text=True).stdout
+    ra = subprocess.run(["python3", scan, "--rules", bx], stdout=subprocess.PIPE, check=True, text=True).stdout
+    rb = subprocess.run(["python3", scan, "--rules", tg], stdout=subprocess.PIPE, check=True, text=True).stdout
     paths = []
-    for name, body in (("builtin", a), ("tgpp", b), ("builtin+tgpp", a + b)):
+    for name, body, rules in (("builtin", a, ra), ("tgpp", b, rb), ("builtin+tgpp", a + b, ra + rb)):
         p = os.path.join(wd, name + ".defs")
         with open(p, "w") as f:
             f.write(body)
+        # (side file: which members the <rule> children of the grouped definitions name)
+        with open(os.path.join(wd, name + ".rules"), "w") as f:
+            f.write(rules)
         paths.append(p)
     return paths
 
@@ -1036,8 +1052,8 @@ PROPS = {
     "C03": dict(family="c03", judge=judge_c03, probes=("dec", "decat", "deca", "decg", "tables"), expect_keys=["tables", 'reason_e_addr', 'reason_e_app', 'reason_e_cmd', 'reason_e_eof', 'reason_e_mismatch', 'reason_e_short', 'reason_e_unknownAvp', 'reason_e_utf8', 'reason_ok_lie0', 'reason_ok_lie1', 'refused_too_deep', 'deca_ok', 'deca_err', 'decg_ok', 'decg_err', 'full', 'notfull'], title="Decoding is faithful"),
     "C04": dict(family="c04", extra=shipped_defs, judge=judge_c04, probes=("decq",), expect_keys=['reason_e_addr', 'reason_e_app', 'reason_e_cmd', 'reason_e_eof', 'reason_e_mismatch', 'reason_e_short', 'reason_e_unknownAvp', 'reason_e_utf8', 'reason_e_deep', 'reason_ok', 'depth_32'], title="The decoder is total"),
     "C05": dict(family="c05", judge=judge_c05, probes=("ench", "encw", "senc"), expect_keys=["senc_ok", "senc_err", "ench_ok", "ench_err_unrepresentable", "encw_ok", "encw_err", "encw_err_unrepresentable", "encw_fault_inside_frame", "encw_mode_1_2_zero", "encw_mode_0_0_err"], title="Encoding never reports success for a frame it did not fully produce"),
-    "C06": dict(family="c06", judge=judge_c06, probes=("sdec", "senc"), title="Stream framing is independent of how bytes are segmented"),
-    "C07": dict(family="c07", judge=judge_c07, probes=("sdec", "sdecmany"), expect_keys=["L_gt1MiB_err", "L_inrange_err", "L_inrange_ok", "L_lt20_err"], title="Hostile frame lengths on a stream are refused cheaply and safely"),
+    "C06": dict(family="c06", judge=judge_c06, probes=("sdec", "sdecnt", "senc"), title="Stream framing is independent of how bytes are segmented"),
+    "C07": dict(family="c07", judge=judge_c07, probes=("sdec", "sdecnt", "sdecmany"), expect_keys=["L_gt1MiB_err", "L_inrange_err", "L_inrange_ok", "L_lt20_err"], title="Hostile frame lengths on a stream are refused cheaply and safely"),
     "C08": dict(family="c08", judge=judge_c08, probes=("serve", "lsn", "lsnpipe", "servemany"), expect_keys=["serve_good", "serve_herr", "serve_unencodable", "serve_malformed_kind0", "serve_malformed_kind1", "serve_malformed_kind2", "serve_malformed_kind3", "serve_malformed_kind4", "serve_malformed_kind5"], title="Server answers each request exactly once, in order, unmodified"),
     "C09": dict(family="c09", judge=judge_c08, probes=("serve", "lsn"), expect_keys=["serve_readcut", "serve_writecut"], title="Server survives connection loss at any byte offset"),
     "C10": dict(family="c10", judge=judge_c10, probes=("lsn",), title="One misbehaving connection cannot disturb the others"),
